@@ -292,6 +292,12 @@ func All() []Params {
 		Params{Variant: "DoContext", N: 3, P: 2, Fail: []int{1}, Ctx: "live", Procs: 2, FailWrapsCanceled: true},
 		Params{Variant: "MapContext", N: 2, P: 2, Fail: []int{0}, Ctx: "live", Procs: 2, FailWrapsCanceled: true},
 		Params{Variant: "DoContext", N: 2, P: 1, Fail: []int{1}, Ctx: "live", Procs: 2, FailWrapsCanceled: true},
+		// many indices and an early failure: the calls that begin afterwards with a cancelled context stay
+		// within parallelism-1 however the indices are handed out
+		Params{Variant: "DoContext", N: 400, P: 2, Fail: []int{0}, Ctx: "live", Procs: 2},
+		Params{Variant: "DoContext", N: 48, P: 2, Fail: []int{0}, Ctx: "live", Procs: 2},
+		Params{Variant: "DoContext", N: 64, P: 2, Fail: []int{1}, Ctx: "live", Procs: 2},
+		Params{Variant: "MapContext", N: 400, P: 3, Fail: []int{1}, Ctx: "live", Procs: 2},
 		// the other calls run until they are cancelled
 		Params{Variant: "DoContext", N: 2, P: 2, Fail: []int{0}, Ctx: "live", Procs: 2, BlockOthers: true},
 		Params{Variant: "DoContext", N: 3, P: 2, Fail: []int{0}, Ctx: "live", Procs: 2, BlockOthers: true},
